@@ -121,7 +121,7 @@ def compare_model(m, spec, rng, counters, bad, n_points=3, evaluators=("ode", "v
         for i in range(shape[0]):
             for j in range(shape[1]):
                 counters["symbolic_comparisons"] += 1
-                terms = ([ref.V[i, k_] * ref.R[k_] for k_ in range(nE)] + [ref.O[i]]) if rname == "ode" else ()
+                terms = ref.flow_terms(i) if rname in ("ode", "pureOdeVector") else ()
                 eq, how = same_expr(got[i, j], exp[i, j], rng, names, scale_terms=terms)
                 counters["sym_" + how] = counters.get("sym_" + how, 0) + 1
                 if not eq:
@@ -131,7 +131,7 @@ def compare_model(m, spec, rng, counters, bad, n_points=3, evaluators=("ode", "v
         rhs = sym_got["vMat"] * sym_got["eventRateVector"] + sym_got["pureOdeVector"] if nE else sym_got["pureOdeVector"]
         for i in range(nS):
             counters["symbolic_comparisons"] += 1
-            eq, how = same_expr(lhs[i], rhs[i], rng, names)
+            eq, how = same_expr(lhs[i], rhs[i], rng, names, scale_terms=ref.flow_terms(i))
             if not eq:
                 bad("reported ODE != reported V*R + explicit terms", row=i, ode=str(lhs[i]), vr_plus_o=str(rhs[i]))
     try:
